@@ -132,6 +132,11 @@ func vfH_C10_split(tier int) {
 		}
 		return c.timeAtom(k, vfChoice(2) == 0)
 	}
+	// in the quick tier only the first time bound of a shape takes every form; the others are integer bounds
+	atom2 := atom
+	if tier == 0 {
+		atom2 = func() (Expr, bool) { return c.timeAtom(0, vfChoice(2) == 0) }
+	}
 	var cond Expr
 	var truth bool
 	switch vfChoice(10) {
@@ -147,7 +152,7 @@ func vfH_C10_split(tier int) {
 		cond, truth = c10And(p, tp, a, ta)
 	case 3:
 		a, ta := atom()
-		b, tb := atom()
+		b, tb := atom2()
 		cond, truth = c10And(a, ta, b, tb)
 	case 4:
 		a, ta := atom()
@@ -172,7 +177,7 @@ func vfH_C10_split(tier int) {
 	case 7: // three time bounds
 		a, ta := c.timeAtom(0, true)
 		b, tb := c.timeAtom(0, false)
-		d, td := atom()
+		d, td := atom2()
 		x, tx := c10And(a, ta, b, tb)
 		cond, truth = c10And(x, tx, d, td)
 	case 8: // no time bound at all
